@@ -226,6 +226,7 @@ fn scenario_poseidon(rng: &mut SmallRng, kind: u32) -> Option<Scenario<EF4>> {
     let mut privates = vec![];
     let mut pdata = vec![];
     let mut dir_bit_public = None;
+    let mut expected_digest = false;
     match kind {
         0 | 1 | 3 => {
             let ins: Vec<_> = (0..4).map(|_| b.alloc_private_input("in")).collect();
@@ -246,6 +247,23 @@ fn scenario_poseidon(rng: &mut SmallRng, kind: u32) -> Option<Scenario<EF4>> {
                 })
                 .ok()?;
             let o0 = outs[0]?;
+            // half of the single-permutation scenarios check the digest against expected-digest
+            // public inputs (connect of an exposed output limb to a slot the caller sets)
+            if kind != 1 && rng.random_range(0..2u32) == 1 {
+                use p3_field::BasedVectorSpace;
+                use p3_symmetric::Permutation;
+                let mut st = [BabyBear::ZERO; 16];
+                for (i, e) in privates.iter().enumerate() {
+                    st[4 * i..4 * i + 4].copy_from_slice(<EF4 as BasedVectorSpace<BabyBear>>::as_basis_coefficients_slice(e));
+                }
+                default_babybear_poseidon2_16().permute_mut(&mut st);
+                for k in 0..2 {
+                    let exp = b.public_input();
+                    b.connect(outs[k]?, exp);
+                    publics.push(<EF4 as BasedVectorSpace<BabyBear>>::from_basis_coefficients_slice(&st[4 * k..4 * k + 4])?);
+                }
+                expected_digest = true;
+            }
             if kind == 3 {
                 // the private inputs feed only the permutation row
                 let _ = b.mul(o0, o0);
@@ -326,10 +344,12 @@ fn scenario_poseidon(rng: &mut SmallRng, kind: u32) -> Option<Scenario<EF4>> {
         privates,
         pdata,
         dir_bit_public,
-        consumer: match kind {
-            0 => "poseidon2-sponge",
-            1 => "poseidon2-chained",
-            3 => "poseidon2-sponge-inputs-only-npo",
+        consumer: match (kind, expected_digest) {
+            (0, false) => "poseidon2-sponge",
+            (0, true) => "poseidon2-sponge+expected-digest",
+            (1, _) => "poseidon2-chained",
+            (3, false) => "poseidon2-sponge-inputs-only-npo",
+            (3, true) => "poseidon2-sponge-inputs-only-npo+expected-digest",
             _ => "poseidon2-merkle",
         },
     })
@@ -487,12 +507,13 @@ fn main() {
             }
             // "long" vectors and a perturbed last public may legitimately be harmless only if the
             // API says so: length is always checked; a perturbed value may still satisfy the circuit.
-            let may_succeed = fault == "conflicting-public-value";
+            let may_succeed = fault == "conflicting-public-value" && !consumer.ends_with("+expected-digest");
             // a faulted run that produces exactly the unfaulted witness used no unset value: the
             // withheld / altered input was determined by the circuit itself (aliased to a constant
             // or to a computed value)
             let same_as_unfaulted = m.get("none").is_some_and(|o| o == out_rel);
-            if out_rel.starts_with("run:Ok") && same_as_unfaulted && out_dev.as_deref() == Some(out_rel.as_str()) {
+            let determined_conflict = fault == "conflicting-public-value" && consumer.ends_with("+expected-digest");
+            if out_rel.starts_with("run:Ok") && same_as_unfaulted && out_dev.as_deref() == Some(out_rel.as_str()) && !determined_conflict {
                 rep.add(CaseResult::held(key, false).count(format!("redundant-input/{fault}"), 1));
                 continue;
             }
